@@ -144,8 +144,8 @@ func randomCases(rng *prng.R, cases, length int) {
 		}
 		r := newRun(pol, capacity, expiry, isSync)
 		universe := capacity + 1 + rng.Intn(3)
-		if capacity >= 99 {
-			// prefill close to capacity so that evictions happen
+		if capacity >= 99 && rng.Intn(3) != 0 {
+			// prefill close to capacity so that evictions happen (one case in three stays nearly empty)
 			n := capacity - rng.Intn(3)
 			for k := 0; k < n; k++ {
 				r.exec(fmt.Sprintf("set %d %d", k, rng.Intn(3)))
@@ -256,6 +256,13 @@ func main() {
 	case "exhaustive":
 		exhaustive(*maxLen, []int{1, 2, 3}, policies, []int{0, 5}, []bool{true})
 		exhaustive(*maxLen-1, []int{1, 2}, policies, []int{0, 5}, []bool{false})
+		// TinyLFU with a real admission window (capacity >= 100) holding only a few entries: everything
+		// still sits in the window, the main segment is empty
+		n := *maxLen
+		if n > 4 {
+			n = 4
+		}
+		exhaustive(n, []int{100, 200}, []string{"tinylfu"}, []int{0, 5}, []bool{true})
 	case "replay":
 		replay(*file)
 	}
